@@ -49,6 +49,10 @@ IdentIn(pid, ids) == [DefIn EXCEPT !.t = "ident", !.pid = pid, !.ids = ids]
 GenDocIn(g) == [DefIn EXCEPT !.t = "gendoc", !.g = g]
 QueryIn(q) == [DefIn EXCEPT !.t = "query", !.q = q]
 
+\* packets Noble sent: acknowledgement / timeout (dn = "NATIVE" | "VOUCHER" | "RAWDATA")
+AckIn(op, chan, dn, base, amt, who) == [DefIn EXCEPT !.t = "ackpkt", !.op = op, !.chan = chan, !.dn = dn, !.base = base, !.amt = amt, !.who = who, !.mk = "NONE"]
+TimeoutIn(chan, dn, base, amt, who) == [DefIn EXCEPT !.t = "timeout", !.chan = chan, !.dn = dn, !.base = base, !.amt = amt, !.who = who, !.mk = "NONE"]
+
 \* common counterparty spellings with their characters
 Cp0 == <<"0", <<"0">>>>
 Cp1 == <<"1", <<"1">>>>
